@@ -525,7 +525,7 @@ func (w *W) junk(r *hx.Rng) *Op {
 // ---- history driver ------------------------------------------------------------------------------
 
 func famHistories(t *testing.T, r *hx.Rng, o *hx.Out, nh int) {
-	nops := hx.N(70, 90)
+	nops := hx.N(80, 90)
 	for i := 0; i < nh; i++ {
 		w := newWorld(t)
 		init := w.initInfo()
@@ -613,6 +613,7 @@ func famHistories(t *testing.T, r *hx.Rng, o *hx.Out, nh int) {
 			case roll < 62 && !expired && mayExpire && len(ops) > nops*4/5:
 				op = &Op{Kind: "expire", Tag: "expire"}
 				expired = true
+				maxChans += 2 // keep opening channels so that the client-status guards are reached
 			default:
 				byKind := map[string][]*Op{}
 				var kinds []string
